@@ -1,5 +1,7 @@
 import HexVerif.Lemmas.AsmEncode
 import HexVerif.Lemmas.AsmLiteral
+import HexVerif.Lemmas.XcmpAm
+import HexVerif.Lemmas.AsmLayout
 /-
   C04 — the assembler's prefix encoding reconstructs every 32-bit operand exactly.
   Model: `Asm.instrLen`/`Asm.encode` (hexasm.hpp `numNibbles`, `instrLen`, `emitProgramBin`);
@@ -200,6 +202,41 @@ theorem C04_program_unique (is js : List (Nat × Word)) (h : ∀ i ∈ is, i.1 <
 
 example : decodeAll 3 (encodeAll [(3, -1#32), (9, 16#32)]) = some [(3, -1#32), (9, 16#32)] :=
   C04_program _ (by decide) 3 (by decide)
+
+/-! ### On the ISA itself
+
+    `C04` decodes with `Asm.decodeChain`, a restatement of the PFIX/NFIX rule.  The next theorem
+    removes that restatement from what has to be trusted: with the emitted bytes in memory at `pc`
+    and a clear operand register, `instrLen v` steps of the ISA specification (`Isa.step`,
+    hexb.pdf p.8) are exactly ONE dispatch of the instruction with the full operand `v` and the
+    program counter behind the chain (`Am.chain_steps`). -/
+
+/-- **C04 on the ISA specification.** -/
+theorem C04_on_isa (opc : Nat) (hopc : opc < 12) (v : Word) (s : Isa.St) (io : Isa.IOSt)
+    (ho : s.o = 0)
+    (hmem : Am.fetchList s.mem s.pc (instrLen v.toInt)
+              = some (encode opc v.toInt (instrLen v.toInt))) :
+    Am.stepN (instrLen v.toInt) s io
+      = Isa.dispatch { s with pc := s.pc + BitVec.ofNat 32 (instrLen v.toInt), o := v } io opc := by
+  have hl : (encode opc v.toInt (instrLen v.toInt)).length = instrLen v.toInt :=
+    encode_length opc v.toInt _ (C04_length v).1
+  have hd := C04 opc hopc v []
+  simp only [List.append_nil] at hd
+  have := Am.chain_steps (encode opc v.toInt (instrLen v.toInt)) 8 0 s io opc v
+    (by rw [hl]; exact hmem)
+    (by rw [ho, hl]; unfold decodeInstr at hd; rw [hd]; simp)
+  rw [hl] at this
+  exact this
+
+/-- ... and every one of the 12 immediate-taking instructions leaves the operand register clear
+    (when it does not fault on a memory access). -/
+theorem C04_oreg_clear (opc : Nat) (hopc : opc < 12) (s s' : Isa.St) (io io' : Isa.IOSt)
+    (h : Isa.dispatch s io opc = .running s' io') : s'.o = 0 := by
+  have : opc = 0 ∨ opc = 1 ∨ opc = 2 ∨ opc = 3 ∨ opc = 4 ∨ opc = 5 ∨ opc = 6 ∨ opc = 7 ∨ opc = 8
+      ∨ opc = 9 ∨ opc = 10 ∨ opc = 11 := by omega
+  rcases this with rfl | rfl | rfl | rfl | rfl | rfl | rfl | rfl | rfl | rfl | rfl | rfl <;>
+    simp only [Isa.dispatch] at h <;> (try split at h) <;> simp_all <;>
+    (try (obtain ⟨h1, _⟩ := h; subst h1; rfl))
 
 /-- Non-vacuity / regression examples, including the value the pinned tree got wrong. -/
 example : encode 3 (-2147483648) (instrLen (-2147483648)) = [0xF8, 0xE0, 0xE0, 0xE0, 0xE0, 0xE0, 0xE0, 0x30] := by
